@@ -51,8 +51,8 @@ type c13Model struct {
 }
 
 type c13World struct {
-	nopass   bool   // no password is required right now (Reconf)
-	pass     string // the password required right now
+	nopass   bool          // no password is required right now (Reconf)
+	pass     string        // the password required right now
 	keep     []*redis.Conn // every connection object seen stays referenced for the whole execution
 	mc       *mcWorld
 	password bool
